@@ -1,7 +1,8 @@
 //! Property table: which engines decide which property, with the evidence rule texts.
 
 use crate::common::*;
-use crate::{kv, listen, mtu, select};
+use crate::sim::{self, Monitor};
+use crate::{kv, listen, mtu, pairs, select, wirecheck};
 
 pub fn run_property(ctx: &Ctx) -> Option<Report> {
     let r = match ctx.prop.as_str() {
@@ -42,6 +43,59 @@ pub fn run_property(ctx: &Ctx) -> Option<Report> {
             mtu::run(ctx, &mut r);
             r
         }
+        "C08" => {
+            let mut r = Report::new(
+                "cases = (a) model messages (SYN/SYN-ACK/ACK/BadCluster; digests of 0..2,000 members, IPv4/IPv6, ids and keys in length classes 0,1,2,7,30,255,256,300,16383,16384,16385,65535; deltas mixing headers, key-values of the 3 statuses, explicit max versions, empty members; extreme u64 values) encoded by the independent encoder with canonical / raw / compressed / mixed / tiny blocks and fed to the real decoder; (b) messages emitted by real nodes in generated states, checked against the real and the independent decoder;                  non-trivial = message with >= 2 blocks, or a block stored uncompressed, or an IPv6 id, or a boundary-class string; distinct = by message bytes",
+            );
+            r.assume("zstd is trusted as a codec; in canonical mode the real encoder must reproduce the independent encoder's bytes");
+            wirecheck::run(ctx, &mut r);
+            r
+        }
+        "C01" | "C02" | "C03" | "C05" | "C12" | "C13" | "C16" => {
+            let (mon, quick, thorough, nontrivial) = match ctx.prop.as_str() {
+                "C01" => (Monitor::C01, 40_000, 1_000_000, "the prefix produced a reset, a >50 KB (truncated) reply, a mid-reset copy, a rejected delta or healed a partition with divergent copies, AND at least one copy lagged when the fair phase started"),
+                "C02" => (Monitor::C02, 200_000, 5_000_000, "some copy had passed a delete/TTL write of its member and later received a delivery carrying data about that member"),
+                "C03" => (Monitor::C03, 200_000, 5_000_000, ">= 3 nodes with an entry learned through a third party, or a copy rebuilt by a reset"),
+                "C05" => (Monitor::C05, 200_000, 5_000_000, "a processed message mentioned the receiver itself in its digest or delta"),
+                "C12" => (Monitor::C12, 200_000, 5_000_000, "a member was removed after the grace period and a later digest mentioned it"),
+                "C13" => (Monitor::C13, 200_000, 5_000_000, "the live set or a live member's max version changed between two evaluations"),
+                _ => (Monitor::C16, 200_000, 5_000_000, "a cross-cluster SYN was delivered and some delivery was a duplicate or out of order"),
+            };
+            let mut r = Report::new(&format!(
+                "cases = generated histories (writes/deletes/TTL, clock advances around the grace periods, heartbeats, key GC, liveness evaluations, SYNs, deliveries in any order, drops, duplicates, cuts/heals, late joins, crashes/restarts under a new generation) on 2..5 real nodes exchanging real datagrams, profiles small/truncation/gc/partition/membership; every copy is compared with the owner ledger after every step; non-trivial = {nontrivial}; distinct = by history"
+            ));
+            r.assume("every ChitchatId is used by one incarnation; restarts use a new generation id; honest nodes only");
+            r.assume("the owner's local API is trusted to record the ledger (checked separately by C06/C04)");
+            sim::run(ctx, &mut r, mon, quick, thorough);
+            r
+        }
+        "C14" => {
+            let mut r = Report::new(
+                "cases = (sender copy, receiver copy or 'unknown member', size budget) for one member, copies installed on fresh real nodes through honest-form messages; the sender answers the receiver's own SYN, the delta is decoded independently, checked against the spec-level rule (offer iff ahead; reset iff receiver max and watermark both below sender watermark; content = prefix of sender entries above the start; explicit max version iff none) and delivered to the unchanged receiver, whose copy must equal a reference apply and strictly advance;                  non-trivial = the sender offered a delta (sub-counts reset / incremental / truncated / max-version-only / equal-boundary); distinct = by case",
+            );
+            r.assume("scope: watermarks and versions 0..7, <= 3 sender keys, <= 1 receiver key in the enumerated part; versions up to 1e6 and 4 keys in the random part");
+            pairs::run_c14(ctx, &mut r);
+            r
+        }
+        "C04" => {
+            let mut r = Report::new(
+                "three sub-checks: (a) generated cluster histories with frontier / key-version monotonicity monitors and panic capture around every honest message; (b) (copy, honest-form delta) pairs, small scope enumerated, delivered once and twice, whether or not an honest sender would have produced the delta for that copy; (c) local API sequences against the reference model (version allocation).                  non-trivial = (a) history with a duplicated or reordered delivery, (b) pair with a delta, (c) as in C06; distinct = by case",
+            );
+            r.assume("honest-form deltas: ascending key-values above the announced start, or an explicit max version above it");
+            sim::run(ctx, &mut r, Monitor::C04, 150_000, 3_000_000);
+            pairs::run_c04b(ctx, &mut r);
+            kv::run(ctx, &mut r, "C04");
+            r
+        }
+        "C20" => {
+            let mut r = Report::new(
+                "cases = (a) generated cluster histories with a counting catch-up callback on every node, (b) (copies, multi-member honest-form delta) pairs incl. members just created by the message's digest and duplicates; around every processed message: callback count == 1 iff some member copy's watermark rose, cross-checked with the reset rule evaluated on the independently decoded delta;                  non-trivial = a message that resets at least one copy (sub-counts: >= 2 resets in one message, narrowly avoided resets); distinct = by case",
+            );
+            r.assume("key GC never runs inside message processing, so a watermark rising during processing is exactly a reset");
+            sim::run(ctx, &mut r, Monitor::C20, 100_000, 2_000_000);
+            pairs::run_c20b(ctx, &mut r);
+            r
+        }
         _ => return None,
     };
     Some(r)
@@ -53,6 +107,24 @@ pub fn replay_property(ctx: &Ctx, sub: &str, case: &serde_json::Value) -> SubRes
         "C15" => listen::replay(ctx, sub, case),
         "C17" => select::replay(ctx, sub, case),
         "C07" => mtu::replay(ctx, sub, case),
+        "C08" => wirecheck::replay(ctx, sub, case),
+        "C14" => pairs::replay_c14(ctx, sub, case),
+        "C04" => match sub {
+            "histories" => sim::replay(ctx, sub, case, Monitor::C04),
+            "copy-x-delta-pairs" | "random-multi-member-deltas" => pairs::replay_apply(ctx, sub, case, "C04"),
+            _ => kv::replay(ctx, sub, case, "C04"),
+        },
+        "C20" => match sub {
+            "histories" => sim::replay(ctx, sub, case, Monitor::C20),
+            _ => pairs::replay_apply(ctx, sub, case, "C20"),
+        },
+        "C01" => sim::replay(ctx, sub, case, Monitor::C01),
+        "C02" => sim::replay(ctx, sub, case, Monitor::C02),
+        "C03" => sim::replay(ctx, sub, case, Monitor::C03),
+        "C05" => sim::replay(ctx, sub, case, Monitor::C05),
+        "C12" => sim::replay(ctx, sub, case, Monitor::C12),
+        "C13" => sim::replay(ctx, sub, case, Monitor::C13),
+        "C16" => sim::replay(ctx, sub, case, Monitor::C16),
         _ => {
             let mut r = SubResult::default();
             r.inconclusive.push(format!("no replay handler for {}", ctx.prop));
